@@ -455,7 +455,7 @@ def c17(tier, seed):
             if len(run.violations) < 40:
                 run.violation(b["clause"], _c17_facts(b["clause"], "extrapolation"), b)
     # ---- code -> spec: random longer histories and the repository's versioned fixtures
-    n_tr = 640 if quick else 8000
+    n_tr = 640 if quick else 5000
     per = 40 if quick else 250
     traces = []
     skipped = 0
